@@ -35,6 +35,16 @@ CatChain == <<
     R(M1("A", 1), M1("B", 1)), R(M1("C", 1), M1("D", 1)), R(M1("E", 1), M1("F", 1)),
     R(M2("C", 1, "F", 1), M1("G", 1)), R(M2("B", 1, "E", 1), M1("H", 1)), R(M1("D", 1), M1("G", 1)) >>
 Cat6 == <<Cat12[1], Cat12[2], Cat12[3], Cat12[5], Cat12[6], Cat12[10]>>
+(* named reactions; "f" and "g" are the same reaction under two names (twins once two systems *)
+(* are added), "f2" carries the name "f" again on another reaction                              *)
+RN(re, pr, nm) == [reac |-> re, prod |-> pr, name |-> nm]
+CatN == << RN(M1("A", 1), M1("B", 1), "f"), RN(M1("A", 1), M1("B", 1), "g"),
+           R(M1("B", 1), M1("C", 1)), RN(M1("C", 1), M1("D", 1), "f") >>
+F_None == {}
+F_Sys == {"add", "iadd"}
+F_Hist == {"add", "iadd", "add-list", "add-gen", "iadd-list", "iadd-gen", "iadd-iter"}
+F_HistQ == {"add", "iadd", "add-list", "iadd-gen"}
+CatN3 == <<CatN[1], CatN[2], CatN[4]>>
 Cat4 == <<Cat12[1], Cat12[2], Cat12[3], Cat12[5]>>
 CatChain5 == SubSeq(CatChain, 1, 5)
 NoComp == <<>>
@@ -53,6 +63,8 @@ Preds_All == {P("has", "A", 0), P("has", "E", 0), P("has", "C", 0), P("consumes"
               P("order", "", 1), P("order", "", 2), P("nprod", "", 2)}
 Preds_Few == {P("has", "B", 0), P("consumes", "A", 0), P("order", "", 1)}
 Preds_None == {}
+Preds_Named == {P("named", "f", 0), P("named", "g", 0), P("has", "C", 0)}
+Preds_Named2 == {P("named", "f", 0), P("named", "g", 0)}
 
 Q_None == {}
 Q_Graph == {"graph"}
